@@ -17,6 +17,7 @@ import (
 	"testing/synctest"
 	"time"
 
+	"github.com/lidofinance/dc4bc/client/types"
 	"github.com/lidofinance/dc4bc/storage"
 
 	"verif/harness/vstat"
@@ -40,6 +41,9 @@ type c14Pair struct {
 	Reset    bool   `json:"reset"`     // the API request is POST /resetState instead
 	NewRound bool   `json:"new_round"` // the poller's first pending message is the proposal of another round (it creates a new pending operation)
 	Dup      bool   `json:"dup"`       // instead of the poller, a second API request submitting the same result runs concurrently (C15: answered once)
+	// ReinitOther: the poller's pending message is the re-initialisation message of another round (the recorded one made
+	// out for another round identifier): the node replays that round's old log while the API finishes the first round
+	ReinitOther bool `json:"reinit_other,omitempty"`
 }
 
 type c14Schedule struct {
@@ -133,6 +137,27 @@ func c14Setup(t *testing.T, pr c14Pair) (tr *ceremonyTrace, rec opRecord, msgs [
 				break
 			}
 		}
+	}
+	if pr.ReinitOther {
+		for _, m := range tr.Board {
+			if m.Event != "reinit_dkg" {
+				continue
+			}
+			var re types.ReDKG
+			if err = json.Unmarshal(m.Data, &re); err != nil {
+				return
+			}
+			other := strings.Repeat("ef", 32)
+			re.DKGID = other
+			for i := range re.Messages {
+				re.Messages[i].DkgRoundID = other
+			}
+			data, _ := json.Marshal(re)
+			msgs = append(msgs, storage.Message{DkgRoundID: other, Event: m.Event, Data: data, Signature: m.Signature, SenderAddr: m.SenderAddr})
+			return
+		}
+		err = fmt.Errorf("no re-initialisation message on the recorded board")
+		return
 	}
 	// the next messages of the round that other participants post and that are addressed to node 0
 	for _, m := range tr.Board[rec.BoardLen:] {
@@ -475,6 +500,8 @@ func c14Pairs() []c14Pair {
 		// proposal and the proposer's partial signature in one go
 		out = append(out, c14Pair{Trace: "reinit014", N: tc.n, T: tc.t, Op: 0, Msgs: 2}, c14Pair{Trace: "reinit014", N: tc.n, T: tc.t, Op: 0, Msgs: 1})
 	}
+	// finishing the re-initialisation of one round while the poller replays the old log of another round's re-initialisation
+	out = append(out, c14Pair{Trace: "reinit", N: 2, T: 2, Op: 0, Msgs: 1, ReinitOther: true}, c14Pair{Trace: "reinit014", N: 2, T: 2, Op: 0, Msgs: 1, ReinitOther: true})
 	return out
 }
 
@@ -528,6 +555,10 @@ func TestC14(t *testing.T) {
 		complete := true
 		job := 0
 		for pi, pr := range pairs {
+			if !thorough() && pr.ReinitOther && pr.Trace == "reinit014" {
+				complete = false
+				continue
+			}
 			if !thorough() && pi%3 != 0 && !pr.Reset && !pr.NewRound && pr.Trace != "reinit" && pr.Trace != "reinit014" {
 				complete = false
 				continue // quick: a fixed subset of pairs
@@ -551,6 +582,9 @@ func TestC14(t *testing.T) {
 			label := fmt.Sprintf("%s:%s x %d msg(s)", pr.Trace, rec.Type, len(msgs))
 			if pr.NewRound {
 				label += " incl. proposal of another round"
+			}
+			if pr.ReinitOther {
+				label = fmt.Sprintf("%s:%s x re-initialisation message of another round", pr.Trace, rec.Type)
 			}
 			if pr.Reset {
 				label = fmt.Sprintf("%s:resetState x %d msg(s)", pr.Trace, len(msgs))
